@@ -37,6 +37,17 @@ TEXT["C15"] = ("Theorems over the dispatch model of detail/memory.hpp:82-130 and
                "move_iterators of non-trivially-copyable types are moved element-wise. Correspondence: the full matrix of 11 source forms x "
                "39 type pairs x FixedSize/VaryingSize x lengths on the real emplace_back, printing the real trait values, the stored "
                "representations, the source afterwards and copy/move counters next to the model's prediction, with a T(source) monitor.")
+TEXT["C11"] = ("Theorems: for every parameter list (every shape of the run tables, proved through a general coverage/disjointness "
+               "theorem about calculate_consecutive_indices) reference assignment copies every field, copy leaves the source unchanged, "
+               "move moves out exactly the non-trivially-assignable fields, swap exchanges all fields exactly once; iterator arithmetic "
+               "and comparisons are index arithmetic. Correspondence: assignment/move/swap/iter_swap between all position pairs, "
+               "rotate/reverse/swap_ranges against a std::vector oracle, exhaustive iterator-law monitor over all index pairs, access-path "
+               "identity (operator[], *it, it[n], ->, front/back, const views).")
+TEXT["C12"] = ("Theorems over the element model (element.hpp branch matrix x allocator traits): construction from a reference stores "
+               "the values in an own, sufficiently large block from the given allocator and moves from rvalue mutable references only; "
+               "copy assignment (field-wise and reallocating), move assignment (all four branches) and swap preserve/exchange the values; "
+               "assignment back to a reference preserves values; vectors and elements do not affect each other. Correspondence: element "
+               "operations under all ten allocator-trait combinations with ledger, value oracle and address monitors.")
 NOTE = ("Trusted: Lean 4.33 kernel; axioms propext/Classical.choice/Quot.sound only (audited on every run); the correspondence "
         "harness, generator and runner; g++ 12.2 + ASan/UBSan. Modelled, not verified: allocator, value types, std algorithms, "
         "no size_t overflow, user preconditions (DESIGN.md §8).")
